@@ -165,6 +165,11 @@ func (t Track) validate() error {
 		if x.TickDelta > MaxTickDelta {
 			return errorx.Invalid("delta time %d is too long for a midi file", x.TickDelta)
 		}
+		if m, ok := x.Func.(*MetaTempo); ok {
+			if err := m.validate(); err != nil {
+				return err
+			}
+		}
 	}
 	return nil
 }
